@@ -47,13 +47,54 @@ def place_key(f, place, depth=0):
     return local, names
 
 
-def ident_like(fx):
-    """explicit arms of Parser::parse_identifier's match on the token kind"""
+def follow(fx, f, b, kind, hcache, switches=None):
+    """where token kind `kind` ends when followed from block b through gotos, tests of the current token's
+    kind and boolean kind-set helpers (the first block that does anything else)"""
+    if switches is None:
+        switches = {x[0]: x for x in M.enum_switches(fx, f) if x[1] == TK}
+    seen = set()
+    while b is not None and b not in seen:
+        seen.add(b)
+        t = f.blocks[b]["t"]
+        if t[0] == "goto" and not any(s[0] == "a" for s in f.blocks[b]["s"]):
+            b = t[1]
+            continue
+        if t[0] == "switch" and b in switches:
+            sw = switches[b]
+            if place_key(f, sw[2])[1][-1:] == ("kind",):
+                b = sw[3].get(kind, sw[4])
+                continue
+        if t[0] == "call" and t[1].get("d") in fx.fns and t[4] is not None:
+            g = fx.fns[t[1]["d"]]
+            hs = helper_summary(fx, g, hcache)
+            if hs is not None:
+                val = hs[0].get(kind, hs[1])
+                tt = f.blocks[t[4]]["t"]
+                if tt[0] == "switch" and tt[1][0] in ("c", "m") and tt[1][1][0] == t[3][0]:
+                    tgt = None
+                    for v, tb in tt[2]:
+                        if bool(int(v)) == val:
+                            tgt = tb
+                    b = tgt if tgt is not None else tt[3]
+                    continue
+        return b
+    return b
+
+
+def ident_like(fx, hcache=None):
+    """the token kinds Parser::parse_identifier treats differently from Eof, i.e. accepts as names: followed
+    from the function's entry, so the set survives moving the test into a helper"""
+    hcache = hcache if hcache is not None else {}
     f = fx.one("parser::Parser::<'a>::parse_identifier")
-    for bi, et, src, arms, other, rest in M.enum_switches(fx, f):
-        if et == TK and "Identifier" in arms:
-            return set(arms), f
-    return set(), f
+    tk = fx.adts.get(TK)
+    if tk is None:
+        return set(), f
+    end = follow(fx, f, 0, PROBE, hcache)
+    out = set()
+    for v in tk["variants"]:
+        if follow(fx, f, 0, v["name"], hcache) != end:
+            out.add(v["name"])
+    return out, f
 
 
 def consumers(fx):
@@ -113,36 +154,7 @@ class Site:
 
     def step(self, b, kind):
         """follow `kind` from block b through gotos, chained tests of the same token and kind-set helpers"""
-        f = self.f
-        seen = set()
-        while b is not None and b not in seen:
-            seen.add(b)
-            t = f.blocks[b]["t"]
-            if t[0] == "goto" and not any(s[0] == "a" for s in f.blocks[b]["s"]):
-                b = t[1]
-                continue
-            if t[0] == "switch" and b in self.switches:
-                sw = self.switches[b]
-                if place_key(f, sw[2])[1][-1:] == self.key[1][-1:] and place_key(f, sw[2])[1][-1:] == ("kind",):
-                    b = sw[3].get(kind, sw[4])
-                    continue
-            if t[0] == "call" and t[1].get("d") in self.fx.fns and t[4] is not None:
-                g = self.fx.fns[t[1]["d"]]
-                hs = helper_summary(self.fx, g, self.hcache)
-                if hs is not None:
-                    val = hs[0].get(kind, hs[1])
-                    # the helper's verdict is switched on in the continuation
-                    nb = t[4]
-                    tt = f.blocks[nb]["t"]
-                    if tt[0] == "switch" and tt[1][0] in ("c", "m") and tt[1][1][0] == t[3][0]:
-                        tgt = None
-                        for v, tb in tt[2]:
-                            if bool(int(v)) == val:
-                                tgt = tb
-                        b = tgt if tgt is not None else tt[3]
-                        continue
-            return b
-        return b
+        return follow(self.fx, self.f, b, kind, self.hcache, self.switches)
 
     def outcome(self, kind):
         return self.step(self.arms.get(kind, self.other), kind)
@@ -366,6 +378,48 @@ def gates(fx, IL, cons, hcache, acc):
             yield f, cb, fx.fns[d], (fp[1] if fp else None), missing
 
 
+# ---------------------------------------------------------------- the reference set against the language
+# ECMA-262 (2024) 12.7.2: reserved words, including the words reserved in strict-mode / module code
+# (tsrun parses everything as module code).  A word the lexer gives its own token kind that is NOT in
+# this list is an ordinary identifier of the language and must remain usable as a name.
+ES_RESERVED = set("""await break case catch class const continue debugger default delete do else enum export extends false
+finally for function if import in instanceof new null return super switch this throw true try typeof var void while with yield
+let static implements interface package private protected public""".split())
+
+
+def word_kinds(fx):
+    """token kinds the identifier scanner of the lexer produces for fixed words: variants built in a lexer
+    function that also builds Identifier and holds the variant's spelling as a string constant (its keyword table)"""
+    best, scanner = set(), None
+    for f in fx.fns.values():
+        if not f.file.startswith("src/lexer"):
+            continue
+        made, strs = set(), set()
+        for bl in f.blocks:
+            for st in bl["s"]:
+                if st[0] != "a":
+                    continue
+                rv = st[2]
+                if rv[0] == "agg" and isinstance(rv[1], dict) and rv[1].get("p") == TK:
+                    made.add(rv[1].get("v"))
+                for op in ([rv[1]] if rv[0] == "use" else []):
+                    v = M.const_str(op)
+                    if v is not None:
+                        strs.add(v)
+            t = bl["t"]
+            if t[0] == "call":
+                for a in t[2]:
+                    v = M.const_str(a)
+                    if v is not None:
+                        strs.add(v)
+        if "Identifier" not in made:
+            continue
+        words = {v for v in made if v and v.lower() in strs}
+        if len(words) > len(best):
+            best, scanner = words, f
+    return best, scanner
+
+
 # ---------------------------------------------------------------- the rule
 
 def rule(fx, ck, name="R4.identifier-kinds"):
@@ -379,6 +433,19 @@ def rule(fx, ck, name="R4.identifier-kinds"):
     ck.rule(name + ".sets", "B: a kind set that groups Identifier with other kinds contains every identifier-like kind", floor=3)
     ck.rule(name + ".gates", "C: a boolean kind test placed straight in front of a name acceptor is true for every identifier-like kind the function gives no other meaning", floor=9)
     others = sorted(IL - {"Identifier"})
+    # the reference set itself, against the language: non-reserved words with a token kind of their own
+    ck.rule(name + ".reference", "every word the lexer gives its own token kind that ECMAScript does not reserve is accepted by parse_identifier", floor=14)
+    words, scanner = word_kinds(fx)
+    ck.anchor(len(words) >= 40, "keyword table of the lexer's identifier scanner (%d word kinds in %s)" % (len(words), scanner.path if scanner else "?"))
+    for w in sorted(words):
+        if w.lower() in ES_RESERVED:
+            continue
+        ok = w in IL
+        ck.instance(name + ".reference", "word kind %s" % w, F.short_span(scanner.span), ok=ok)
+        if not ok:
+            ck.finding(name + ".reference", "%s.reference/%s" % (name, w), F.short_span(pid.span),
+                       "the lexer turns the word `%s` into TokenKind::%s, ECMAScript does not reserve it, and parse_identifier does not accept that kind as a name: "
+                       "a program that uses `%s` as a variable, parameter or property name is rejected" % (w.lower(), w, w.lower()))
     for f in fx.fns.values():
         if not f.file.startswith("src/parser"):
             continue
